@@ -275,7 +275,7 @@ def walk(lang: Lang, e, ids: dict, keep: list):
         return {"k": "abs", "id": oid(e), "ps": [oid(p) for p in e.params],
                 "b": walk(lang, e.body, ids, keep)}
     assert isinstance(e, E.Application), type(e)
-    xt = e.x.type
+    xt = e.x.type.follow()      # graph.py decides on the followed type (a4e52c5)
     fn_impl = isinstance(xt, T.TypeOperation) and xt.operator == T.Function
     return {"k": "app", "id": oid(e), "f": walk(lang, e.f, ids, keep),
             "x": walk(lang, e.x, ids, keep), "fn_impl": bool(fn_impl)}
@@ -312,9 +312,12 @@ def annotate(lang: Lang, w, venv=None):
                 (bt is not None and bt != residual(pt, len(x["ps"])))):
             w["illtyped"] = True
     elif x["k"] == "var":
-        # a parameter handed on as an argument stands for its internal node, i.e. it is data,
-        # whatever its type (graph.py:351 sees a TypeVariable, never a Function operation)
-        w["fn"] = False
+        # a parameter handed on as an argument: function-typed iff the declared parameter
+        # type of the receiving operator (equivalently the parameter's own type) is
+        xt = venv.get(x["id"])
+        w["fn"] = is_fun(pt) if pt is not None else (is_fun(xt) if xt is not None else w["fn_impl"])
+        if pt is not None and xt is not None and pt != xt:
+            w["illtyped"] = True
     else:
         xt = annotate(lang, x, venv)
         w["fn"] = is_fun(pt) if pt is not None else (is_fun(xt) if xt is not None else w["fn_impl"])
@@ -335,9 +338,10 @@ def spine(w):
 
 
 def in_domain(w, bound=frozenset()) -> bool:
-    """The expressions the property (and the Coq theorem, wfb) speak about:
+    """The expressions the property (and the Coq theorem, wfp) speak about:
     every application spine is headed by an operation; function-typed arguments
-    are operations / partial applications or abstractions; data arguments are
+    are operations / partial applications, abstractions or parameters in scope;
+    data arguments are
     sources, bound parameters or applications; parameters are in scope."""
     k = w["k"]
     if k == "src":
@@ -356,7 +360,8 @@ def in_domain(w, bound=frozenset()) -> bool:
                     return False
                 if not in_domain(x["b"], bound | set(x["ps"])):
                     return False
-            elif x["k"] in ("op", "app"):
+            elif x["k"] in ("op", "app", "var"):
+                # var: a function-typed parameter in scope handed on as an argument
                 if not in_domain(x, bound):
                     return False
             else:
@@ -623,13 +628,13 @@ def listing(obs):
 
 HDR = """From Coq Require Import List Arith Bool.
 Import ListNotations.
-From TF Require Import Graph.AddExpr Graph.AddExprSpec.
+From TF Require Import Graph.AddExpr Graph.AddExprSpec Graph.AddExprProofs Graph.AddExprParams.
 Definition run (pinned : bool) (e : expr) : option (node * list triple) :=
   match add_expr add_from_plain pinned e None g_empty with
   | Some (n, st) => Some (n, g_tr st)
   | None => None
   end.
-Definition dom (e : expr) : nat := Nat.b2n (wfb [] e).
+Definition dom (e : expr) : nat := Nat.b2n (wfp [] e).
 """
 
 
@@ -697,6 +702,13 @@ def fixed_lang() -> Lang:
         {"name": "K", "type": AAA, "nbody": 2, "body": ("var", "p0")},
         {"name": "twice", "type": F(AA, A, A), "nbody": 2,
          "body": ("vap", "p0", [("vap", "p0", [("var", "p1")])])},
+        # capp k a = h (k f) a : after expansion the argument (k f) carries a type VARIABLE
+        # bound to A ** A (it was typed while k was still a parameter)
+        {"name": "capp", "type": F(F(AA, A, A), A, A), "nbody": 2,
+         "body": ("ap", "h", [("vap", "p0", [("ap", "f", [])]), ("var", "p1")])},
+        {"name": "h9", "type": F(F(AA, A), A), "nbody": 0, "body": None},
+        # pass k = \g. h1 g : the function-typed parameter g is handed on as an argument
+        {"name": "fwd", "type": F(AA, A), "nbody": 1, "body": ("ap", "h1", [("var", "p0")])},
     ]
     return Lang(ops)
 
@@ -725,6 +737,8 @@ FIXED_TERMS = [
     ("const_siblings", ap("hh", ap("K", S0), ap("K", S0))),
     ("const_other_source", ap("hr", S0, ap("K", S1))),
     ("twice_reduced", ap("twice", ap("f"), S0)),
+    ("function_argument_typed_by_bound_variable", ap("capp", ap("h"), S0)),
+    ("function_parameter_handed_on", ap("h9", ap("fwd"))),
     ("nested_three", ap("h3", ap("inner", ap("f"), S0), ap("g", S1), ap("K", S1), ap("h", ap("ff"), S0))),
 ]
 
@@ -977,7 +991,8 @@ def main(tier: str, seed: int, replay: str | None = None) -> int:
                 f"{nfixed} fixed cases (the test-suite's shapes, the Coq witness, argument-order pairs)"
                 + (f"; {nexh} exhaustive terms of nesting <= 2 over a fixed set of 8 operators and 2 sources" if nexh else "")
                 + "; non-trivial = in the theorem's domain (wfb) and with at least one function-typed argument, "
-                  "distinct by language and expression",
+                  "distinct by language and expression; whether an argument is a function is computed by the harness "
+                  "from the DECLARED parameter type and cross-checked against the followed expr.x.type",
         "samples": samples,
         "distribution": {
             "fixed": nfixed, "random": nrandom, "exhaustive": nexh,
@@ -993,10 +1008,12 @@ def main(tier: str, seed: int, replay: str | None = None) -> int:
             "skipped": dict(skipped)},
         "exhaustive": False})
     rep.assumptions = [
-        "domain of the theorem and of the oracle (wfb): every application is headed by an operation, "
-        "function-typed arguments are operations / partial applications / abstractions, parameters are used "
-        "as data; other shapes (a parameter applied as a function inside a residual abstraction) are only "
-        "compared with the model",
+        "domain of the theorem and of the oracle (wfp): every application is headed by an operation, "
+        "function-typed arguments are operations / partial applications / abstractions / parameters in scope "
+        "(function-typedness decided on the followed type, as graph.py does since a4e52c5); other shapes "
+        "(a parameter applied as a function inside a residual abstraction) are only compared with the model",
+        "expressions that are ill-typed after expansion (one Abstraction object both applied and passed: "
+        "destructive beta-reduction, C15) are not used",
         "add_from adds (a, from, b) and otherwise only tf:depends triples (add_from_ok); tf:depends is C09's",
         "rdflib's objects() iterates over a snapshot (memory store: list(dict.keys()))",
         "agreement between model and implementation is tested on the generated cases, not proved",
